@@ -270,7 +270,9 @@ class Intervals(Sub):
             r2 = pendulum.parse(s2, **kw)
             for nm, got, text, w_, o_ in (("start", r2.start, ta, wall, off), ("end", r2.end, tb, w2, off2)):
                 alone = pendulum.parse(text, **kw)
-                req(fields(got) == fields(w_) and got.utcoffset() == alone.utcoffset() and got.timezone_name == alone.timezone_name,
+                # (with tz= and no designator the written wall time may be skipped in that zone: then both are its normalisation, C02)
+                req(fields(got) == fields(alone) and (o_ is None and bool(tzopt) or fields(got) == fields(w_)) and got.utcoffset() == alone.utcoffset()
+                    and got.timezone_name == alone.timezone_name,
                     f"parse({s2!r}, {kw}): the {nm} is not what {text!r} denotes on its own", got=str(got), alone=str(alone))
                 if o_ is not None:
                     req(got.utcoffset() == D.timedelta(seconds=o_), f"parse({s2!r}, {kw}): the {nm} does not carry its written offset", got=str(got))
